@@ -318,6 +318,11 @@ func (x *c13Lib) step(si int, op c13Op) {
 		if !bytes.Equal(msg, op.D.Bytes()) {
 			x.fail("Transcript.AppendMessage:modified-message", "step %d", si)
 		}
+		// the message buffer is the caller's and is reused after the call: the
+		// transcript has absorbed the bytes, it must not look at them again
+		for j := range msg {
+			msg[j] ^= 0x5a
+		}
 	case "ext":
 		if len(w.lt) == 0 {
 			return
@@ -357,6 +362,9 @@ func (x *c13Lib) step(si int, op c13Op) {
 		}
 		if !bytes.Equal(wit, op.D.Bytes()) {
 			x.fail("TranscriptRngBuilder.RekeyWithWitnessBytes:modified-witness", "step %d", si)
+		}
+		for j := range wit {
+			wit[j] ^= 0x5a
 		}
 	case "fin":
 		if len(w.lb) == 0 {
